@@ -1039,7 +1039,9 @@ var basicObjects = []*ObjectSchema{
 			),
 			"multipliers": NewPropertySchema(
 				NewMapSchema(
-					NewIntSchema(nil, nil, nil),
+					// A multiplier is a positive factor: formatting divides by it, and the parser names a
+					// regular expression group after it.
+					NewIntSchema(PointerTo[int64](1), nil, nil),
 					NewRefSchema("Unit", nil),
 					nil,
 					nil,
